@@ -54,7 +54,7 @@ type Op struct {
 	DlMs  int  `json:"dlms,omitempty"`    // pick: deadline in ms (0 = none)
 	Exp   bool `json:"expired,omitempty"` // pick: the context has already ended when the pick is issued (deadline in the past)
 
-	Out   int   `json:"out,omitempty"`   // done: 0 ok 1 Unavailable 2 client-side DEADLINE_EXCEEDED text 3 DEADLINE_EXCEEDED other text 4 raw context.DeadlineExceeded 5 Canceled
+	Out   int   `json:"out,omitempty"`   // done: 0 ok 1 Unavailable 2 client-side DEADLINE_EXCEEDED text 3 DEADLINE_EXCEEDED other text 4 raw context.DeadlineExceeded 5 Canceled 6..22 status code (n-6) 23 plain error 24 io.EOF
 	Rep   int   `json:"rep,omitempty"`   // done: 0 = the response of a BIND carries the request's key, 1 = it carries Reply (possibly empty)
 	Reply []int `json:"reply,omitempty"` // done: keys carried by the response of a BIND when Rep=1
 
